@@ -803,7 +803,7 @@ var hopNames = map[string]bool{"connection": true, "keep-alive": true, "proxy-au
 	"content-length": true, "content-encoding": true}
 
 // expected observation at the client, derived from the origin script only
-func expected(x exchJ, sawGzip bool, relax304 bool) string {
+func expected(x exchJ, sawGzip bool, relax304 bool, handler bool) string {
 	o := x.Resp
 	hop := map[string]bool{}
 	if relax304 && o.Code == 304 {
@@ -881,7 +881,16 @@ func expected(x exchJ, sawGzip bool, relax304 bool) string {
 		anames = append(anames, n)
 	}
 	sort.Strings(anames)
-	return fmt.Sprintf("{| x_code := %d; x_fields := %s; x_absent := %s; x_body := %s; x_trailers := %s |}", o.Code,
+	// the reason phrase is the origin's (the http.Handler variant runs on net/http's server, which writes its own)
+	reason := "None"
+	if !handler {
+		reason = "(Some " + coqfmt.Str(strings.TrimLeft(o.Reason, " ")) + ")"
+	}
+	// a HEAD reply's Content-Length is metadata of the resource, not framing: it must be relayed
+	if !handler && x.Req.Method == "HEAD" && o.Framing == "none" && o.HeadCL >= 0 && !o.HeadTE {
+		fparts = append(fparts, "("+coqfmt.Str("content-length")+", "+coqfmt.StrList([]string{fmt.Sprint(o.HeadCL)})+")")
+	}
+	return fmt.Sprintf("{| x_code := %d; x_reason := %s; x_fields := %s; x_absent := %s; x_body := %s; x_trailers := %s |}", o.Code, reason,
 		coqfmt.List("(list N * list (list N))", fparts), coqfmt.StrList(anames), cstr(body), coqfmt.List("(list N * list (list N))", tparts))
 }
 
@@ -937,7 +946,7 @@ func renderE2E(c ecaseJ, res connResult, snaps []snapshot, sawAE []string, relax
 		}
 		q := fmt.Sprintf("(mkReq %s %d %d %s)", coqfmt.Str(x.Req.Method), maj, min, coqfmt.Bool(reqClose(x.Req)))
 		parts = append(parts, fmt.Sprintf("{| e_closing := %s; e_req := %s; e_snap := %s; e_order := %s; e_exp := %s |}", coqfmt.Bool(c.Shutdown > 0), q, coqResp(rj),
-			coqfmt.StrList(order), expected(x, strings.Contains(sawAE[i], "gzip"), relax304)))
+			coqfmt.StrList(order), expected(x, strings.Contains(sawAE[i], "gzip"), relax304, c.Handler)))
 	}
 	v11 := c.Exchs[0].Req.Proto == "HTTP/1.1"
 	return fmt.Sprintf("{| e_v11 := %s; e_want := %d; e_exchs := %s; e_stream := %s; e_closed := %s |}", coqfmt.Bool(v11), len(c.Exchs),
